@@ -1,3 +1,4 @@
+//@ requires base
 // ---- std iterator shim: a double-ended, cloneable iterator seen as the sequence of items it has yet to yield.
 // ASSUMED[iter-std]: Iterator::{next,nth,last,count}, DoubleEndedIterator::{next_back, rev().nth(k)} and Clone behave as
 // documented in std for finite iterators such as vec::IntoIter, path::Components, str::Split: rest() is the remaining items.
